@@ -31,6 +31,9 @@ func init() { register("C11", checkC11) }
 
 var c11Keys = []string{"a", "b", "c", "d"}
 
+// keys that differ only by white space at their ends are different keys (JSON names; nothing documents trimming)
+var c11SpacedKeys = []string{"a", "a ", " a", "b", "b\t", "c", "c\u00a0", "\nd"}
+
 func genMapsOnly(t *rapid.T, d int) map[string]interface{} {
 	m := map[string]interface{}{}
 	n := rapid.IntRange(1, 4).Draw(t, "n")
@@ -73,7 +76,7 @@ func genDotPath(t *rapid.T, root map[string]interface{}) []string {
 		if len(cands) > 0 && rapid.IntRange(0, 5).Draw(t, "exist") > 0 {
 			s = rapid.SampledFrom(cands).Draw(t, "ck")
 		} else {
-			s = rapid.SampledFrom([]string{"a", "b", "c", "d", "zz"}).Draw(t, "rk")
+			s = rapid.SampledFrom(append([]string{"zz"}, c11Keys...)).Draw(t, "rk")
 		}
 		segs = append(segs, s)
 		if m, ok := cur.(map[string]interface{}); ok {
@@ -155,6 +158,11 @@ func applyModel(root map[string]interface{}, op OpC11) (applied bool, kind strin
 }
 
 func genC11(t *rapid.T) CaseC11 {
+	saved := c11Keys
+	defer func() { c11Keys = saved }()
+	if rapid.IntRange(0, 5).Draw(t, "spaced") == 0 {
+		c11Keys = c11SpacedKeys
+	}
 	c := CaseC11{Map: genMapsOnly(t, 3)}
 	model := copyMap(c.Map)
 	n := rapid.IntRange(1, 12).Draw(t, "nops")
@@ -172,7 +180,7 @@ func genC11(t *rapid.T) CaseC11 {
 				op.Val = fmt.Sprintf("V%d", i)
 			}
 		case "rename":
-			op.NewName = rapid.SampledFrom([]string{"a", "b", "c", "d", "nn", "mm"}).Draw(t, "nn")
+			op.NewName = rapid.SampledFrom(append([]string{"nn", "mm"}, c11Keys...)).Draw(t, "nn")
 		}
 		applyModel(model, op)
 		c.Ops = append(c.Ops, op)
